@@ -1187,6 +1187,9 @@ func (f *Frame) makeInterface(in *ssa.MakeInterface) {
 	case x.K == VScalar && x.X.S.K == SString:
 		f.E.declareFunSorted("box$string", []*Sort{StringS}, IntS)
 		pay = App("box$string", IntS, x.X)
+		// boxing is injective (interface values holding strings compare by value): ground instance
+		f.E.declareFunSorted("unbox$string", []*Sort{IntS}, StringS)
+		f.E.addFact(True, Eq(App("unbox$string", StringS, pay), x.X), "boxing a string is injective")
 	default:
 		pay = f.fresh(in.Name()+".box", IntS)
 	}
@@ -1232,6 +1235,8 @@ func (f *Frame) typeAssert(in *ssa.TypeAssert) {
 				f.E.declareFunSorted("box$string", []*Sort{StringS}, IntS)
 				r := f.freshVal(at, in.Name())
 				f.assume(Implies(ok, Eq(App("box$string", IntS, r.X), x.X)), "unboxing")
+				f.E.declareFunSorted("unbox$string", []*Sort{IntS}, StringS)
+				f.assume(Implies(ok, Eq(App("unbox$string", StringS, x.X), r.X)), "unboxing (boxing a string is injective)")
 				res = r
 			default:
 				res = f.freshVal(at, in.Name())
